@@ -7,13 +7,13 @@ import obligations as O
 
 BASE = json.load(open("/root/.vp/BASELINE.json"))["cmd"] if os.path.exists("/root/.vp/BASELINE.json") else ""
 LEVEL = {
- "C01": ("M", "Bounded symbolic execution of the real MIR of the commit / merge-publication / delete-file / managed-directory code: every path (call outcomes symbolic, loops unrolled 2x/4x, inlining depth <= 3/4) keeps the order 'files terminated -> directory synced -> meta.json replaced -> GC', stops before meta.json after any failed step and returns the error. Decided by z3, cross-checked by cvc5; counterexamples are confirmed on the real code with a recording / fault-injecting Directory.",
+ "C01": ("M", "Bounded symbolic execution of the real MIR of the commit / merge-publication / delete-file / managed-directory code: every path (call outcomes symbolic, loops unrolled 2x/4x, inlining depth <= 3/4) keeps the order 'files terminated -> directory synced -> meta.json replaced -> GC', stops before meta.json after any failed step and returns the error; the in-memory meta only follows a successful write; files are registered as managed before they are created; policy-driven merges of committed segments read the last commit's opstamp first. Decided by z3, cross-checked by cvc5; counterexamples are confirmed on the real code with a recording / fault-injecting Directory.",
          "over-approximated path set of the named functions only (no data flow beyond Result/Option/bool tags and a few integers); OS fsync semantics, multi-commit histories, thread interleavings and file contents are outside; rustc's MIR printer is trusted"),
- "C02": ("K+M", "Kernel level: the delete-visibility rule, the opstamp allocator, the alive-bitset algebra and its codec are decided for all inputs within the bounds by CBMC on the compiled code; the guard / loop structure of compute_deleted_bitset (break iff opstamp > target, remove only on is_deleted, one advance per op) and advance_deletes by z3 on the MIR.",
+ "C02": ("K+M", "Kernel level: the delete-visibility rule, the opstamp allocator, the alive-bitset algebra and its codec are decided for all inputs within the bounds by CBMC on the compiled code; the guard / loop structure of compute_deleted_bitset (break iff opstamp > target, remove only on is_deleted, one advance per op), advance_deletes, the merged segment's delete cursor (taken after advancing), the target opstamp of uncommitted merges and the memory-budget cut (only between run groups) by z3 on the MIR, the last three confirmed natively by replay-bin probes when violated.",
          "says nothing about registers, worker/updater schedules or whole operation histories (IndexWriter cannot be executed symbolically: threads, HashMap)"),
  "C03": ("K+M", "Kernel level: boolean combinators are decided to be set algebra under C13; here the phrase position kernels, the order-preserving value encodings, the fast-field range push-down, f64 / IP range bounds and bound_to_value_range are decided for all inputs within the bounds by CBMC; the bound transformations of integer literals on integer columns of another type are executed from the MIR as bit-vector programs and decided by z3 + cvc5 for all 64-bit literal / value pairs.",
          "which combinator BooleanWeight picks, term dictionaries / automata, real segments and collectors are outside"),
- "C05": ("M+K", "z3 over the MIR: the reader resolves meta.json and opens every segment file inside the META_LOCK window GC also takes, publishes a searcher only after a complete load, and opens all components eagerly; CBMC: OwnedBytes views are stable.",
+ "C05": ("M+K", "z3 over the MIR: the reader resolves meta.json and opens every segment file inside the META_LOCK window GC also takes, publishes a searcher only after a complete load, and opens all components eagerly; both flock branches are exclusive; committed-segment merges are targeted at the commit opstamp; CBMC: OwnedBytes views are stable.",
          "arc-swap atomicity, mmap page cache and real interleavings are reduced to lock-window obligations; the lock itself is C18"),
  "C06": ("K+M", "CBMC on the compiled collectors: TopNComputer and TopNHeap return exactly the best K with the address tie-break for every key sequence within the bounds (concrete K per harness), thresholds never reject a top-K member, block-max metadata is an upper bound; z3 over the MIR: merge_top_k pushes in address order, the pruning paths are preceded by their guards, and the guards (executed as bit-vector programs) pass only for scorers that read frequencies.",
          "block-WAND loops over real postings, executors and sort-key extraction are outside; K and the number of pushes are small and concrete"),
@@ -21,7 +21,7 @@ LEVEL = {
          "fst dictionary, the arena hash map as a whole, SegmentWriter end-to-end, 128-value SIMD blocks and lists longer than 2 blocks + tail are outside"),
  "C08": ("K", "Codec level, CBMC: bit-packer round trip per width, monotonic mappings, range push-down through min/gcd, Line residual exactness condition, dense rank/select and sparse block kernels; stack merge of column indexes (rows-with-values of full / empty / legacy-v1 multivalued inputs shifted by the table offset).",
          "column serializers / readers end-to-end, codec selection, dictionary columns, shuffled merges and v2 inputs of the stack merge are outside"),
- "C10": ("M", "z3 over the MIR of ManagedDirectory::garbage_collect, SegmentUpdater::list_files and the commit task: living set and deletion candidates computed under both locks, only managed-and-not-living paths marked, bookkeeping persisted after sync, GC only after publication.",
+ "C10": ("M", "z3 over the MIR of ManagedDirectory::garbage_collect, SegmentUpdater::list_files and the commit task: living set and deletion candidates computed under both locks, only managed-and-not-living paths marked, bookkeeping persisted after sync, GC only after publication; emptied segments leave the committed register before it is listed, the temporary doc store is untracked on the published meta (both with native probes).",
          "inventory liveness under real schedules and 'no orphan after any history' are data-level statements outside the encoding"),
  "C11": ("M", "z3 over the MIR: for each storage-touching call on the commit / purge / merge / worker paths, the Err branch reaches the caller (or the merge future) and nothing after a failed step touches meta.json; in-memory meta only follows a successful write; no Result is dropped unexamined and no I/O-carrying Result goes through an error-erasing adapter (ok / unwrap_or* / flatten / filter_map ...) on these paths outside a justified allow-list (per-function scans).",
          "a fault at every operation of a whole workload on every thread, abort / hang freedom and recovery are outside"),
@@ -33,7 +33,7 @@ LEVEL = {
          "block decoding / streaming, merges, the fst-based v3 index and automata are outside (measured infeasible)"),
  "C17": ("K+M", "Kernel level, CBMC: DocIdMapping inverse / remap on all permutations of 4, permutation validation, order-independence of the delete rule; z3 + cvc5 over the columnar crate's MIR: the u64 key a fresh segment is sorted by preserves the order of i64 / u64 values (all pairs).",
          "IndexMerger sort paths and per-structure remaps need segment readers and are outside"),
- "C18": ("K+M", "CBMC: the default lock implementation as a state machine (at most one live guard, acquire Ok iff free, failed acquire changes nothing); z3 over MIR: writer creation acquires INDEX_WRITER_LOCK before IndexWriter::new, rollback moves the guard without re-acquiring or dropping.",
+ "C18": ("K+M", "CBMC: the default lock implementation as a state machine (at most one live guard, acquire Ok iff free, failed acquire changes nothing); z3 over MIR: writer creation acquires INDEX_WRITER_LOCK before IndexWriter::new, rollback moves the guard without re-acquiring or dropping; the mmap lock is an exclusive flock; RamDirectory::open_write creates under one write-lock acquisition (race probe).",
          "flock semantics, RamDirectory (HashMap) and racing creations are reduced to the create-new assumption"),
  "C19": ("K", "Tightly bounded, CBMC: token offsets of Simple / Whitespace tokenizers on every valid UTF-8 text of 2-3 bytes with Unicode classification stubbed by an arbitrary class function; NgramTokenizer emits exactly the n-grams in order on char boundaries for every valid UTF-8 text of 3 bytes (4 in the thorough tier); snippet range merging.",
          "texts > 3-4 bytes, filters that rewrite text, the compound splitter, stemmers, regex, HTML escaping are outside; the stub makes no claim about which characters are letters"),
